@@ -86,7 +86,13 @@ inline std::enable_if_t<(kBlockSize > kMaxSmallBufferSize), void> deallocSmallOr
  **/
 template <size_t kBlockSize>
 inline char* allocSmallBuffer() {
+#if defined(DISPENSO_VERIF)
+  char* verifBuf = detail::allocSmallOrLarge<kBlockSize>();
+  DISPENSO_VERIF_NOTE("MemAlloc", verifBuf, kBlockSize, 0);
+  return verifBuf;
+#else
   return detail::allocSmallOrLarge<kBlockSize>();
+#endif // DISPENSO_VERIF
 }
 /**
  * Free a small buffer from a small buffer pool.
@@ -99,6 +105,7 @@ inline char* allocSmallBuffer() {
  **/
 template <size_t kBlockSize>
 inline void deallocSmallBuffer(void* buf) {
+  DISPENSO_VERIF_NOTE("MemFree", buf, kBlockSize, 0);
   detail::deallocSmallOrLarge<kBlockSize>(buf);
 }
 
